@@ -146,9 +146,9 @@ def provider_bank(ctx) -> None:
         if isinstance(s, ast.For):
             raises = [r for r in ast.walk(s) if isinstance(r, ast.Raise)]
             for r in raises:
-                gs = [(core.src(t), pol) for t, pol in cfg.guards(r, add.node)]
-                has_in = any(pol and 'in self.provider' in t for t, pol in gs)
-                differs = any(('provider == self.provider[' in t and not pol) or ('provider != self.provider[' in t and pol) or ('provider is not self.provider[' in t and pol) for t, pol in gs)
+                gs = cfg.cguards(r, add.node, siblings=True)
+                has_in = any(pol and t == 'ref in self.provider' for t, pol in gs)
+                differs = any((t == 'provider == self.provider[ref]' and not pol) or (t in ('provider != self.provider[ref]', 'provider is not self.provider[ref]') and pol) for t, pol in gs)
                 if has_in and differs and 'references' in core.src(s.iter):
                     coll_loops.append(s)
     ctx.check(bool(coll_loops), 'C20.bank', add, 'a reference already bound to a different class raises (collision check over every reference)', add.node, key='add:collision')
@@ -184,8 +184,8 @@ def provider_bank(ctx) -> None:
     ctx.check('return BANK[cls].get(Reference(reference))' in core.src(gi.node), 'C20.bank', gi, 'lookup goes through the bank of the requested interface', gi.node, key='getitem:bank')
     isub = prog.func(f'{PROVIDER}:Service.__init_subclass__')
     raises = [r for r in core.walk_local(isub.node) if isinstance(r, ast.Raise)]
-    gs = [[core.src(t) for t, pol in cfg.guards(r, isub.node) if pol] for r in raises]
-    ctx.check(any('alias' in g and 'isabstract(cls)' in g for g in gs), 'C20.bank', isub, 'an alias on an abstract class is rejected', isub.node, key='subclass:abstract-alias')
+    gs = [cfg.cguards(r, isub.node) for r in raises]
+    ctx.check(any(g == [('alias', True), ('isabstract(cls)', True)] or g == [('isabstract(cls)', True), ('alias', True)] for g in gs), 'C20.bank', isub, 'an alias on an abstract class is rejected', isub.node, key='subclass:abstract-alias')
     text = core.src(isub.node)
     ctx.check('cls.__mro__' in text and 'issubclass(p, Service)' in text and 'p is not Service' in text and 'BANK[parent].add(cls, alias, path)' in text, 'C20.bank', isub, 'the provider is registered with every Service ancestor in its MRO', isub.node, key='subclass:ancestors')
     al = prog.func(f'{PROVIDER}:Alias.__new__')
@@ -210,8 +210,8 @@ def sections(ctx) -> None:
     ctx.check('CONFIG[cls.GROUP][reference]' in core.src(new.node), 'C20.section', new, 'the section is looked up by group and reference', new.node, key='section:lookup')
     res = prog.func(f'{CONF}:Section.resolve')
     raises = [r for r in core.walk_local(res.node) if isinstance(r, ast.Raise)]
-    gs = [[core.src(t) for t, pol in cfg.guards(r, res.node) if pol] for r in raises]
-    ctx.check(any('not reference' in g for g in gs) and all('MissingError' in core.src(r) for r in raises), 'C20.section', res, 'a missing default reference raises MissingError', res.node, key='resolve:missing')
+    gs = [cfg.cguards(r, res.node) for r in raises]
+    ctx.check(any(g == [('reference', False)] for g in gs) and all('MissingError' in core.src(r) for r in raises), 'C20.section', res, 'a missing default reference raises MissingError', res.node, key='resolve:missing')
     ctx.check('reference or CONFIG.get(cls.INDEX, {}).get(cls.SELECTOR)' in core.src(res.node), 'C20.section', res, 'an explicit reference takes precedence over the configured default', res.node, key='resolve:default')
 
 
